@@ -215,26 +215,26 @@ abbrev Res (α : Type) := Out α × ElfStream
 @[inline] def withReader {α} (s : ElfStream) (x : Out α × CachingReader) : Res α :=
   (x.1, { s with reader := x.2 })
 
+/-- the tail of `section_headers_with_strtab`: fetch the bytes of section `shstrndx` -/
+def strtabAt (s : ElfStream) (shstrndx : Nat) : Res (Option Slice) :=
+  match s.shdrs[shstrndx]? with
+  | none => (.err (.BadOffset shstrndx), s)
+  | some strtab =>
+    match dataRange strtab.sh_offset strtab.sh_size with
+    | .err e => (.err e, s)
+    | .panic => (.panic, s)
+    | .ok rg =>
+      s.withReader (rbind (s.reader.readBytes rg.1 rg.2) fun buf r => (.ok (some buf), r))
+
 def sectionHeadersWithStrtab (s : ElfStream) : Res (Option Slice) :=
   if s.shdrs.isEmpty then (.ok none, s) else
   if s.ehdr.t.e_shstrndx = Abi.SHN_UNDEF then (.ok none, s) else
-  -- `self.shdrs[0]` — indexing; reached only when shdrs is non-empty
-  match (if s.ehdr.t.e_shstrndx = Abi.SHN_XINDEX then
-           match s.shdrs[0]? with
-           | some s0 => Out.ok s0.sh_link
-           | none => .panic
-         else .ok s.ehdr.t.e_shstrndx) with
-  | .panic => (.panic, s)
-  | .err e => (.err e, s)
-  | .ok shstrndx =>
-    match s.shdrs[shstrndx]? with
-    | none => (.err (.BadOffset shstrndx), s)
-    | some strtab =>
-      match dataRange strtab.sh_offset strtab.sh_size with
-      | .err e => (.err e, s)
-      | .panic => (.panic, s)
-      | .ok rg =>
-        s.withReader (rbind (s.reader.readBytes rg.1 rg.2) fun buf r => (.ok (some buf), r))
+  if s.ehdr.t.e_shstrndx = Abi.SHN_XINDEX then
+    -- `self.shdrs[0]` — indexing; reached only when shdrs is non-empty
+    match s.shdrs[0]? with
+    | some s0 => s.strtabAt s0.sh_link
+    | none => (.panic, s)
+  else s.strtabAt s.ehdr.t.e_shstrndx
 
 def sectionHeaderByName (s : ElfStream) (name : Slice) : Res (Option SectionHeader) :=
   match s.sectionHeadersWithStrtab with
